@@ -38,7 +38,7 @@ def lemma_fn(trigger):
 
 
 IDENTITY_FNS = {"float_bits": ("float", "int"), "float_from_bits": ("int", "float"),
-                "dset": None, "seq_items": None, "bv_to_int": None, "is_data": None, "set_add": None}
+                "dset": None, "seq_items": None, "bv_to_int": None, "is_data": None, "set_add": None, "is_lib": None}
 
 
 def dset(d, k, v):
@@ -56,6 +56,13 @@ def seq_items(d):
 def is_data(x):
     """x is a data value, not one of the library's module-level sentinel objects (`X = object()`)"""
     return type(x) is not object
+
+
+def is_lib(x, name):
+    """x is an instance of exactly the library class `name` ("datetime.time", "datetime.date", ...; a literal)"""
+    import importlib
+    mod, cls = name.rsplit(".", 1)
+    return type(x) is getattr(importlib.import_module(mod), cls)
 
 
 def set_add(s, x):
